@@ -159,3 +159,81 @@ Proof.
     assert (X : In u (u :: us)) by (left; reflexivity). apply U in X. destruct X as [L N].
     exists u. split; [exact L|]. intros k. destruct (reaches es k u) eqn:Rk; [|reflexivity]. exfalso. apply N. apply F. exists k. exact Rk.
 Qed.
+
+Lemma existsb_eqb_In b l : existsb (Nat.eqb b) l = true <-> In b l.
+Proof.
+  rewrite existsb_exists. split.
+  - intros (y & Hy & E). apply Nat.eqb_eq in E. subst. exact Hy.
+  - intros H. exists b. split; [exact H|apply Nat.eqb_refl].
+Qed.
+
+Lemma bounded_nodup_length n (l : list nat) : NoDup l -> (forall x, In x l -> x < n) -> length l <= n.
+Proof.
+  intros N B. rewrite <- (seq_length n 0). apply NoDup_incl_length; [exact N|].
+  intros x Hx. apply in_seq. specialize (B x Hx). lia.
+Qed.
+
+Lemma chase_total es : forall fuel rest i, NoDup (i :: rest) -> (forall x, In x rest -> x < length es) ->
+  length es + 1 <= fuel + length rest -> chase es fuel (i :: rest) i <> None.
+Proof.
+  induction fuel as [|f IH]; intros rest i N B L.
+  - exfalso. inversion N as [|? ? _ N']; subst. pose proof (bounded_nodup_length _ _ N' B). lia.
+  - cbn [chase]. destruct (nth_error es i) as [[|b]|] eqn:E; try discriminate.
+    destruct (existsb (Nat.eqb b) (i :: rest)) eqn:X; [discriminate|].
+    apply IH.
+    + constructor; [|exact N]. intros H. apply existsb_eqb_In in H. congruence.
+    + intros x [<- |Hx]; [|apply B; exact Hx]. apply nth_error_Some. congruence.
+    + cbn [length]. lia.
+Qed.
+
+Lemma read_entry_total es i : read_entry es i <> None.
+Proof.
+  unfold read_entry. apply chase_total; [constructor; [intros []|constructor]|intros x []|cbn; lia].
+Qed.
+
+Lemma chase_sound es : forall fuel seen i d, chase es fuel seen i = Some (Some d) -> exists k, reaches es k i = true.
+Proof.
+  induction fuel as [|f IH]; intros seen i d H; cbn [chase] in H; [discriminate|].
+  destruct (nth_error es i) as [[|b]|] eqn:E; try discriminate.
+  - exists 1. cbn. rewrite E. reflexivity.
+  - destruct (existsb (Nat.eqb b) seen); [discriminate|]. destruct (IH _ _ _ H) as [k Hk].
+    exists (S k). cbn. rewrite E. exact Hk.
+Qed.
+
+Lemma reaches_mono es : forall k i, reaches es k i = true -> reaches es (S k) i = true.
+Proof.
+  induction k as [|k IH]; intros i H; [discriminate|].
+  cbn [reaches] in H |- *. destruct (nth_error es i) as [[|b]|]; try exact H. apply IH. exact H.
+Qed.
+
+Lemma reaches_min es : forall k i, reaches es k i = true -> exists m, reaches es (S m) i = true /\ reaches es m i = false.
+Proof.
+  induction k as [|k IH]; intros i H; [discriminate|].
+  destruct (reaches es k i) eqn:R; [apply IH; exact R|]. exists k. split; assumption.
+Qed.
+
+Lemma chase_complete es : forall fuel k rest i,
+  reaches es (S k) i = true -> reaches es k i = false -> (forall x, In x rest -> reaches es (S k) x = false) ->
+  chase es fuel (i :: rest) i = None \/ exists d, chase es fuel (i :: rest) i = Some (Some d).
+Proof.
+  induction fuel as [|f IH]; intros k rest i R1 R0 B; [left; reflexivity|].
+  cbn [chase]. cbn [reaches] in R1. destruct (nth_error es i) as [[|b]|] eqn:E; try discriminate.
+  - right. eexists. reflexivity.
+  - destruct k as [|k]; [discriminate|].
+    assert (Rb0 : reaches es k b = false) by (cbn [reaches] in R0; rewrite E in R0; exact R0).
+    destruct (existsb (Nat.eqb b) (i :: rest)) eqn:X.
+    + exfalso. apply existsb_eqb_In in X. destruct X as [<- |X]; [congruence|].
+      specialize (B b X). apply reaches_mono in R1. congruence.
+    + apply (IH k); [exact R1|exact Rb0|].
+      intros x [<- |Hx]; [exact R0|]. specialize (B x Hx).
+      destruct (reaches es (S k) x) eqn:Y; [apply reaches_mono in Y; congruence|reflexivity].
+Qed.
+
+Lemma read_entry_exact es i : (exists d, read_entry es i = Some (Some d)) <-> exists k, reaches es k i = true.
+Proof.
+  split.
+  - intros [d H]. eapply chase_sound. exact H.
+  - intros [k H]. destruct (reaches_min _ _ _ H) as (m & R1 & R0).
+    destruct (chase_complete es (S (length es)) m [] i R1 R0) as [N|D]; [intros x []| |exact D].
+    exfalso. exact (read_entry_total es i N).
+Qed.
